@@ -3,6 +3,7 @@ package run
 import (
 	"fmt"
 	"os"
+	"runtime"
 	"sync"
 	"sync/atomic"
 	"time"
@@ -87,6 +88,38 @@ func startWatchdog() {
 			}
 			r := Replay{Check: w.check, Kind: "terminates", Calls: w.calls,
 				Message: fmt.Sprintf("library call did not return within %s", HangLimit)}
+			w.c.hang(r)
+			fmt.Printf("VIOLATION %s/%s: %s\n  calls: %s\n", w.c.Property, w.check, r.Message, callsText(r.Calls))
+			FlushAll()
+			os.Exit(3)
+		}
+	}()
+}
+
+// HeapLimit: a single library call that drives the Go heap above this many
+// bytes is reported like a hang (the case is written as a replay of kind
+// "bounded" and the process exits), so that an allocation proportional to an
+// integer argument does not take the shard down silently.
+var HeapLimit uint64 = 3 << 30
+
+func init() {
+	go func() {
+		var ms runtime.MemStats
+		for {
+			time.Sleep(100 * time.Millisecond)
+			if callStart.Load() == 0 {
+				continue
+			}
+			runtime.ReadMemStats(&ms)
+			if ms.HeapAlloc < HeapLimit {
+				continue
+			}
+			w := currentCase.Load()
+			if w == nil {
+				continue
+			}
+			r := Replay{Check: w.check, Kind: "bounded", Calls: w.calls,
+				Message: fmt.Sprintf("a library call grew the heap to %d MiB", ms.HeapAlloc>>20)}
 			w.c.hang(r)
 			fmt.Printf("VIOLATION %s/%s: %s\n  calls: %s\n", w.c.Property, w.check, r.Message, callsText(r.Calls))
 			FlushAll()
